@@ -12,17 +12,19 @@ import (
 )
 
 type Clause struct {
-	Kind  string // requires, ensures, assigns, invariant, decreases, unroll, ghost, ...
-	Text  string
-	Expr  Expr
-	Props []string // property tags (nil = inherit from block)
-	Line  int
-	File  string
-	Case  string // behaviour name ("" = unconditional)
-	Loop  int    // loop ordinal for loop clauses
-	Ord   int    // ordinal among clauses of the same kind
-	Exprs []Expr // for assigns (list of locations)
-	Name  string // for ghost / let / at-call binders / lemma names
+	Thorough bool   // only attempted in the thorough tier
+	Kind     string // requires, ensures, assigns, invariant, decreases, unroll, ghost, ...
+	Text     string
+	Expr     Expr
+	Props    []string // property tags (nil = inherit from block)
+	Line     int
+	File     string
+	Case     string // behaviour name ("" = unconditional)
+	Loop     int    // loop ordinal for loop clauses
+	LoopFn   string // for loops of inlined callees: the callee's short name ("" = the function itself)
+	Ord      int    // ordinal among clauses of the same kind
+	Exprs    []Expr // for assigns (list of locations)
+	Name     string // for ghost / let / at-call binders / lemma names
 }
 
 type Contract struct {
@@ -55,9 +57,13 @@ func (c *Contract) clauses(kind string) []*Clause {
 	return out
 }
 func (c *Contract) loopClauses(kind string, loop int) []*Clause {
+	return c.loopClausesFn(kind, loop, "")
+}
+
+func (c *Contract) loopClausesFn(kind string, loop int, fn string) []*Clause {
 	var out []*Clause
 	for _, cl := range c.Clauses {
-		if cl.Kind == kind && cl.Loop == loop {
+		if cl.Kind == kind && cl.Loop == loop && cl.LoopFn == fn {
 			out = append(out, cl)
 		}
 	}
@@ -176,6 +182,11 @@ func (cs *ContractSet) loadContractFile(path string, defaultPkg string) error {
 		kw := fields[0]
 		rest := strings.TrimSpace(strings.TrimPrefix(text, kw))
 		cl := &Clause{Kind: kw, Text: rest, Line: ln + 1, File: path, Case: curCase, Loop: -1}
+		// tier tag: "... @thorough" marks clauses only attempted in the thorough tier
+		if strings.HasSuffix(cl.Text, " @thorough") {
+			cl.Thorough = true
+			cl.Text = strings.TrimSpace(strings.TrimSuffix(cl.Text, " @thorough"))
+		}
 		// per-clause property tag: "... @C06" at the end
 		for {
 			i := strings.LastIndex(cl.Text, " @C")
@@ -202,7 +213,12 @@ func (cs *ContractSet) loadContractFile(path string, defaultPkg string) error {
 			if len(f) < 2 {
 				return fmt.Errorf("%s:%d: bad loop clause", path, ln+1)
 			}
-			k, err := strconv.Atoi(f[0])
+			ordS := f[0]
+			if i := strings.LastIndex(ordS, "."); i >= 0 {
+				cl.LoopFn = ordS[:i]
+				ordS = ordS[i+1:]
+			}
+			k, err := strconv.Atoi(ordS)
 			if err != nil {
 				return fmt.Errorf("%s:%d: bad loop ordinal", path, ln+1)
 			}
@@ -235,7 +251,7 @@ func (cs *ContractSet) loadContractFile(path string, defaultPkg string) error {
 			last.Text += " " + rest
 			continue
 		}
-		key := cl.Kind + "/" + cl.Case + "/" + strconv.Itoa(cl.Loop)
+		key := cl.Kind + "/" + cl.Case + "/" + cl.LoopFn + "." + strconv.Itoa(cl.Loop)
 		cl.Ord = counts[key]
 		counts[key]++
 		cur.Clauses = append(cur.Clauses, cl)
